@@ -21,6 +21,7 @@ RULE = (
     ' mesh_rules: every documented rule requested by point count on an affine mesh of every element type; returned_arrays: in-place use of the arrays a rule returns, every (type, matrix type) pair (non-trivial = every case).'
     " offered_counts: every integer count 1..40 per shape; counts Gauss() refuses are trivial, accepted ones are held to the docstring's order."
     ' Round 8: mixed_orientation enumerates every 2D / 3D element type on a mesh merged with its mirror image (measure and polynomial integrals vs the exact integrals of the two halves).'
+    ' Round 9: far_from_origin enumerates every 2D / 3D element type translated to map coordinates (4.5e5, 5.4e6), measures vs those at the origin within the rounding of the coordinates.'
 )
 ASSUMPTIONS = [
     "documented degree taken from the docstrings of Gauss._Triangle/_Quadrangle/_Tetrahedron/"
